@@ -148,13 +148,13 @@ Proof. unfold between. intros H1 H2 H. specialize (H1 (fst x)). specialize (H2 (
 Ltac defl := repeat progress (rewrite ?deflabels_app; cbn [deflabels app]).
 
 Lemma pop_value_nolabels r b : deflabels (fst (pop_value r b)) = [].
-Proof. destruct b as [|[]| |]; reflexivity. Qed.
+Proof. destruct b as [|[]| | | |]; reflexivity. Qed.
 Lemma finish_opd_nolabels E top r keep code :
   deflabels code = [] -> deflabels (fst (finish_opd E top r keep code)) = [].
 Proof. intros H. unfold finish_opd. destruct keep; cbn [fst]; defl; rewrite H; reflexivity. Qed.
 Lemma eval_opd_nolabels E o : forall top r keep, deflabels (fst (eval_opd E top r o keep)) = [].
 Proof.
-  induction o as [z|i|op x IHx y IHy|u x IHx|g|yj]; intros top r keep; try reflexivity.
+  induction o as [ch z|i|op x IHx y IHy|u x IHx|g|tx IHt|yj]; intros top r keep; try reflexivity.
   - cbn [eval_opd].
     specialize (IHx top R0 (negb (is_safe y))). destruct (eval_opd E top R0 x (negb (is_safe y))) as [c1 lb].
     specialize (IHy (top_after top lb) R1 false). destruct (eval_opd E (top_after top lb) R1 y false) as [c2 rb].
@@ -167,6 +167,7 @@ Proof.
     cbn [fst] in *. apply finish_opd_nolabels. defl. rewrite IHx, P.
     destruct u; [reflexivity | destruct (is_state_of r v); reflexivity].
   - cbn [eval_opd]. destruct keep; reflexivity.
+  - cbn [eval_opd]. specialize (IHt top r keep). destruct (eval_opd E top r tx keep) as [c b]. exact IHt.
 Qed.
 Lemma compare_operands_nolabels E a b : deflabels (fst (fst (compare_operands E a b))) = [].
 Proof.
@@ -385,9 +386,10 @@ Proof. intros N. apply lookup_notin. rewrite deflabels_labdefs. exact N. Qed.
 (* C  source semantics, memory effect, frame conditions                               *)
 (* ================================================================================= *)
 (* the bubble eval_opd returns, in closed form *)
-Definition bub_of (E : env) (top : Z) (rg : reg) (o : iopd) (keep : bool) : bubble :=
+Fixpoint bub_of (E : env) (top : Z) (rg : reg) (o : iopd) (keep : bool) : bubble :=
   match o with
-  | OLit z => BuImm z
+  | OTrunc x => to_byte (bub_of E top rg x keep)
+  | OLit ch z => BuImm ch z
   | OVar i => BuLocal false (int_off E i)
   | OByte v => BuLocal true (byte_off E v)
   | OGlob g => if keep then BuPushed (top + wsize E) else BuReg (RGlob g)
@@ -395,7 +397,7 @@ Definition bub_of (E : env) (top : Z) (rg : reg) (o : iopd) (keep : bool) : bubb
   end.
 Lemma eval_opd_bub E o top rg keep : snd (eval_opd E top rg o keep) = bub_of E top rg o keep.
 Proof.
-  destruct o as [z|i|op x y|u x|g|yj]; try reflexivity; cbn [eval_opd bub_of].
+  revert top rg keep. induction o as [ch z|i|op x _ y _|u x _|g|tx IHt|yj]; intros top rg keep; try reflexivity; cbn [eval_opd bub_of].
   - destruct (eval_opd E top R0 x (negb (is_safe y))) as [c1 lb].
     destruct (eval_opd E (top_after top lb) R1 y false) as [c2 rb].
     destruct (pop_value R1 rb) as [c2' rhs]. destruct (pop_value R0 lb) as [c3 lhs].
@@ -403,11 +405,16 @@ Proof.
   - destruct (eval_opd E top rg x false) as [c b]. destruct (pop_value rg b) as [c' v].
     unfold finish_opd. destruct keep; reflexivity.
   - destruct keep; reflexivity.
+  - rewrite <- IHt. destruct (eval_opd E top rg tx keep) as [c b]. reflexivity.
 Qed.
+Lemma top_after_to_byte top b : top_after top (to_byte b) = top_after top b.
+Proof. destruct b; reflexivity. Qed.
 Lemma top_after_bub E top rg o keep :
   top_after top (bub_of E top rg o keep) = top + Z.of_nat (pushed o keep) * wsize E.
 Proof.
-  unfold pushed. destruct o, keep; cbn [bub_of top_after is_safe is_vac is_glob andb negb orb]; change (Z.of_nat 0) with 0; change (Z.of_nat 1) with 1; lia.
+  unfold pushed. induction o as [ch z|i|op x _ y _|u x _|g|tx IHt|yj];
+    try (destruct keep; cbn [bub_of top_after is_safe is_vac is_glob andb negb orb]; change (Z.of_nat 0) with 0; change (Z.of_nat 1) with 1; lia).
+  cbn [bub_of is_vac]. rewrite top_after_to_byte. exact IHt.
 Qed.
 Lemma room_le (a b : nat) (wd X : Z) : 0 <= wd -> (a <= b)%nat -> Z.of_nat b * wd <= X -> Z.of_nat a * wd <= X.
 Proof. intros Hw L H. assert (Z.of_nat a * wd <= Z.of_nat b * wd) by (apply Z.mul_le_mono_nonneg_r; lia). lia. Qed.
@@ -437,13 +444,14 @@ Definition FP (m : mem) : Z := lw m fp.
    effects; it is visible in `run_mem` below). *)
 Fixpoint sval (m : mem) (o : iopd) : Z :=
   match o with
-  | OLit z => z
+  | OLit _ z => z
   | OVar i => sgn (lw m (FP m - int_off E i))
   | OArith op x y => sgn (wrap (arith_sem op (sval m x) (sval m y)))
   | OUn UNeg x => sgn (wrap (- sval m x))
   | OUn UPos x => sval m x
   | OGlob g => sgn (lw m (a_glob R g))
   | OByte v => lb m (FP m - byte_off E v)
+  | OTrunc x => sval m x mod 256
   end.
 Definition bval (m : mem) (v : bloc) : Z :=
   match v with BLocal j => lb m (FP m - bool_off E j) | BGlobal h => lb m (a_bglob R h) end.
@@ -457,29 +465,32 @@ Fixpoint beval (m : mem) (e : bexpr) : bool :=
   | BOr e1 e2 => beval m e1 || beval m e2
   end.
 (* the value as a machine word: ⟦o⟧ mod 2^(8w) *)
-Definition wval (m : mem) (o : iopd) : Z :=
+Fixpoint wval (m : mem) (o : iopd) : Z :=
   match o with
-  | OLit z => wrap z
+  | OLit _ z => wrap z
   | OVar i => lw m (FP m - int_off E i)
   | OArith op x y => wrap (arith_sem op (sval m x) (sval m y))
   | OUn UNeg x => wrap (- sval m x)
   | OUn UPos x => wrap (sval m x)
   | OGlob g => lw m (a_glob R g)
   | OByte v => lb m (FP m - byte_off E v)
+  | OTrunc x => wval m x mod 256
   end.
 
 (* MEMORY EFFECT of the lowered operand code, as a function (mirrors eval_opd) *)
 Definition pop_mem (r : reg) (b : bubble) (m : mem) : mem :=
   match b with
   | BuLocal false off | BuPushed off => sw m (ra r) (lw m (FP m - off))
-  | BuLocal true off => sw m (ra r) (lb m (FP m - off))
+  | BuLocal true off | BuPushedB off => sw m (ra r) (lb m (FP m - off))
+  | BuRegB r' => sw m (ra r) (lb m (ra r'))
   | _ => m
   end.
 Definition push_mem (keep : bool) (top : Z) (rg : reg) (m : mem) : mem :=
   if keep then sw m (FP m - (top + w)) (lw m (ra rg)) else m.
 Fixpoint eval_mem (top : Z) (rg : reg) (o : iopd) (keep : bool) (m : mem) : mem :=
   match o with
-  | OLit _ | OVar _ | OByte _ => m
+  | OLit _ _ | OVar _ | OByte _ => m
+  | OTrunc x => eval_mem top rg x keep m
   | OGlob g => if keep then sw m (FP m - (top + w)) (lw m (a_glob R g)) else m
   | OArith op x y =>
       let kx := negb (is_safe y) in
@@ -495,7 +506,7 @@ Fixpoint eval_mem (top : Z) (rg : reg) (o : iopd) (keep : bool) (m : mem) : mem 
       let m2 := pop_mem rg (bub_of E top rg x false) m1 in
       push_mem keep top rg
         match u, x with
-        | UPos, OLit z => sw m2 (ra rg) (wrap z)            (* mov [rg], z *)
+        | UPos, OLit _ z => sw m2 (ra rg) (wrap z)            (* mov [rg], z *)
         | UPos, OGlob g => sw m2 (ra rg) (lw m2 (a_glob R g))   (* mov [rg], [var_g] *)
         | UPos, _ => m2                                     (* already in [rg]: no instruction *)
         | UNeg, _ => sw m2 (ra rg) (wval m (OUn UNeg x))
@@ -581,12 +592,13 @@ Definition gword_ok (hi : Z) (m : mem) (g : nat) : Prop :=
   0 <= a_glob R g /\ inb m (a_glob R g) w = true /\ dj hi (a_glob R g) w.
 Fixpoint oexp_ok (hi : Z) (m : mem) (o : iopd) : Prop :=
   match o with
-  | OLit z => - (W / 2) <= z < W / 2
+  | OLit _ z => - (W / 2) <= z < W / 2
   | OVar i => slot_ok hi m (int_off E i) w
   | OArith op x y => op_ok op /\ oexp_ok hi m x /\ oexp_ok hi m y
   | OUn _ x => oexp_ok hi m x
   | OGlob g => gword_ok hi m g
   | OByte v => slot_ok hi m (byte_off E v) 1
+  | OTrunc x => oexp_ok hi m x /\ match x with OGlob g => a_glob R g < W | OArith _ _ _ | OUn _ _ => True | _ => False end
   end.
 (* the stack top of the expression being lowered *)
 Definition HI (m : mem) : Z := FP m - stack_top E.
@@ -673,60 +685,73 @@ Lemma slot_ok_mono hi hi' m off n : hi' <= hi -> slot_ok hi m off n -> slot_ok h
 Proof. intros L [H1 [H2 [H3 H4]]]. unfold slot_ok. pose proof (dj_mono hi hi' _ _ L H4). tauto. Qed.
 Lemma oexp_ok_agree hi hi' m m' o : regs_ok m -> agree hi' m m' -> oexp_ok hi m o -> oexp_ok hi m' o.
 Proof.
-  intros L A. induction o as [z|i|op x IHx y IHy|u x IHx|g|yj]; cbn [oexp_ok]; try tauto.
+  intros L A. induction o as [ch z|i|op x IHx y IHy|u x IHx|g|tx IHt|yj]; cbn [oexp_ok]; try tauto.
   - apply (slot_ok_agree hi hi'); assumption.
   - unfold gword_ok. rewrite (agree_inb hi' m m' _ _ A). tauto.
   - apply (slot_ok_agree hi hi'); assumption.
 Qed.
 Lemma oexp_ok_mono hi hi' m o : hi' <= hi -> oexp_ok hi m o -> oexp_ok hi' m o.
 Proof.
-  intros L. induction o as [z|i|op x IHx y IHy|u x IHx|g|yj]; cbn [oexp_ok]; try tauto.
+  intros L. induction o as [ch z|i|op x IHx y IHy|u x IHx|g|tx IHt|yj]; cbn [oexp_ok]; try tauto.
   - apply slot_ok_mono; assumption.
   - unfold gword_ok. intros [H1 [H2 H3]]. pose proof (dj_mono hi hi' _ _ L H3). tauto.
   - apply slot_ok_mono; assumption.
 Qed.
 Lemma sval_agree hi m m' o : regs_ok m -> agree hi m m' -> oexp_ok hi m o -> sval m' o = sval m o.
 Proof.
-  intros L A. induction o as [z|i|op x IHx y IHy|u x IHx|g|yj]; cbn [sval oexp_ok].
+  intros L A. induction o as [ch z|i|op x IHx y IHy|u x IHx|g|tx IHt|yj]; cbn [sval oexp_ok].
   - reflexivity.
   - intros [H1 [H2 [H3 H4]]]. rewrite (FP_agree hi m m' L A). f_equal. apply (agree_lw hi); assumption.
   - intros [_ [Hx Hy]]. now rewrite IHx, IHy.
   - intros Hx. destruct u; now rewrite IHx.
   - intros [H1 [H2 H3]]. f_equal. apply (agree_lw hi); assumption.
+  - intros [Hx _]. now rewrite IHt.
   - intros [H1 [H2 [H3 H4]]]. rewrite (FP_agree hi m m' L A). apply (agree_lb hi); assumption.
 Qed.
 Lemma wval_agree hi m m' o : regs_ok m -> agree hi m m' -> oexp_ok hi m o -> wval m' o = wval m o.
 Proof.
-  intros L A. destruct o as [z|i|op x y|u x|g|yj]; cbn [wval oexp_ok].
+  intros L A. induction o as [ch z|i|op x _ y _|u x _|g|tx IHt|yj]; cbn [wval oexp_ok].
   - reflexivity.
   - intros [H1 [H2 [H3 H4]]]. rewrite (FP_agree hi m m' L A). apply (agree_lw hi); assumption.
   - intros [_ [Hx Hy]]. now rewrite (sval_agree hi m m' x L A Hx), (sval_agree hi m m' y L A Hy).
   - intros Hx. destruct u; now rewrite (sval_agree hi m m' x L A Hx).
   - intros [H1 [H2 H3]]. apply (agree_lw hi); assumption.
+  - intros [Hx _]. now rewrite IHt.
   - intros [H1 [H2 [H3 H4]]]. rewrite (FP_agree hi m m' L A). apply (agree_lb hi); assumption.
 Qed.
 (* values are words, and their signed reading is the source value *)
 Lemma wval_range m o : wf_mem m -> inrange w (wval m o).
 Proof.
-  intros Wf. destruct o as [z|i|op x y|[|] x|g|yj]; cbn [wval]; try (apply wrap_range; exact Hw1);
+  intros Wf. destruct o as [ch z|i|op x y|[|] x|g|tx|yj]; cbn [wval]; try (apply wrap_range; exact Hw1);
   try (apply (lw_range w Hw1); exact Wf).
-  unfold inrange. pose proof (lb_range m (FP m - byte_off E yj) Wf). pose proof (W_ge w Hw1). lia.
+  - unfold inrange. pose proof (Z.mod_pos_bound (wval m tx) 256 ltac:(lia)). pose proof (W_ge w Hw1). lia.
+  - unfold inrange. pose proof (lb_range m (FP m - byte_off E yj) Wf). pose proof (W_ge w Hw1). lia.
+Qed.
+Lemma sgn_mod256 x : inrange w x -> sgn x mod 256 = x mod 256.
+Proof.
+  intros Hx. assert (Hk : W = 256 * 2 ^ (8 * w - 8)).
+  { unfold Machine.W. change 256 with (2 ^ 8). rewrite <- Z.pow_add_r by lia. f_equal. lia. }
+  destruct (sgn_cases w x Hx) as [[_ E']|[_ E']]; rewrite E'; [reflexivity|].
+  rewrite Hk. replace (x - 256 * 2 ^ (8 * w - 8)) with (x + (- 2 ^ (8 * w - 8)) * 256) by lia. apply Z.mod_add. lia.
 Qed.
 Lemma sval_range hi m o : wf_mem m -> oexp_ok hi m o -> - (W / 2) <= sval m o < W / 2.
 Proof.
-  intros Wf. induction o as [z|i|op x IHx y IHy|u x IHx|g|yj]; cbn [sval oexp_ok]; intros O.
+  intros Wf. induction o as [ch z|i|op x IHx y IHy|u x IHx|g|tx IHt|yj]; cbn [sval oexp_ok]; intros O.
   - exact O.
   - apply (sgn_range w Hw1). apply (lw_range w Hw1); exact Wf.
   - apply (sgn_range w Hw1). apply wrap_range; exact Hw1.
   - destruct u; [apply (sgn_range w Hw1); apply wrap_range; exact Hw1 | apply IHx; exact O].
   - apply (sgn_range w Hw1). apply (lw_range w Hw1); exact Wf.
+  - pose proof (Z.mod_pos_bound (sval m tx) 256 ltac:(lia)). pose proof half_ge_256. lia.
   - pose proof (lb_range m (FP m - byte_off E yj) Wf). pose proof half_ge_256. lia.
 Qed.
 Lemma sgn_wval hi m o : wf_mem m -> oexp_ok hi m o -> sgn (wval m o) = sval m o.
 Proof.
-  intros Wf O. destruct o as [z|i|op x y|[|] x|g|yj]; cbn [wval sval oexp_ok] in *; try reflexivity.
+  intros Wf. induction o as [ch z|i|op x _ y _|[|] x _|g|tx IHt|yj]; intros O; cbn [wval sval oexp_ok] in *; try reflexivity.
   - apply (sgn_wrap_small w Hw1); exact O.
   - apply (sgn_wrap_small w Hw1). apply (sval_range hi); assumption.
+  - rewrite <- (IHt (proj1 O)). rewrite (sgn_mod256 _ (wval_range m tx Wf)). apply (sgn_small w).
+    pose proof (Z.mod_pos_bound (wval m tx) 256 ltac:(lia)). pose proof half_ge_256. lia.
   - apply (sgn_small w). pose proof (lb_range m (FP m - byte_off E yj) Wf). pose proof half_ge_256. lia.
 Qed.
 Lemma bval_agree hi m m' j : regs_ok m -> agree hi m m' -> bslot_ok hi m j -> bval m' j = bval m j.
@@ -783,19 +808,22 @@ Proof. intros [->| ->]; cbn [regaddr]; auto. Qed.
 (* ---------- bubbles ---------- *)
 Definition bub_val (m : mem) (b : bubble) : Z :=
   match b with
-  | BuImm z => wrap z
+  | BuImm _ z => wrap z
   | BuLocal false off | BuPushed off => lw m (FP m - off)
-  | BuLocal true off => lb m (FP m - off)
+  | BuLocal true off | BuPushedB off => lb m (FP m - off)
+  | BuRegB r => lb m (ra r)
   | BuReg r => lw m (ra r)
   end.
 Definition bub_ok (hi : Z) (m : mem) (b : bubble) : Prop :=
   match b with
-  | BuImm _ => True
+  | BuImm _ _ => True
   | BuLocal false off | BuPushed off => slot_ok hi m off w
   | BuLocal true off => slot_ok hi m off 1
+  | BuPushedB off => slot_ok hi m off w
   | BuReg r => r = R0 \/ r = R1 \/ match r with RGlob g => gword_ok hi m g | _ => False end
+  | BuRegB r => (r = R0 \/ r = R1 \/ match r with RGlob g => gword_ok hi m g | _ => False end) /\ ra r < W
   end.
-Definition resident (b : bubble) : bool := match b with BuReg _ => false | _ => true end.
+Definition resident (b : bubble) : bool := match b with BuReg _ | BuRegB _ => false | _ => true end.
 Definition sym_of (r : reg) (b : bubble) : sym := snd (pop_value r b).
 Definition symval (m : mem) (s : sym) : option Z :=
   match s with
@@ -818,25 +846,52 @@ Lemma bub_of_ok top rg o keep m : rg = R0 \/ rg = R1 -> regs_ok m -> room_ok top
   bub_ok (FP m - top_after top (bub_of E top rg o keep)) m (bub_of E top rg o keep).
 Proof.
   intros Hr L Ro O P. unfold pushed in P.
-  destruct o as [z|i|op x y|u x|g|yj]; cbn [bub_of top_after bub_ok is_safe is_vac is_glob negb andb orb] in *; try exact I; try exact O;
-    rewrite ?HwE; destruct keep; cbn [top_after bub_ok andb orb] in *; try (destruct Hr; auto; fail); try (right; right; exact O);
-    apply pushed_slot_ok; try assumption; change (Z.of_nat 1) with 1 in P; lia.
+  assert (Main : forall o', match o' with OTrunc _ => False | _ => True end -> oexp_ok (FP m - top) m o' ->
+            Z.of_nat (if keep && negb (is_vac o') then 1%nat else 0%nat) * w <= FP m - top - lo ->
+            bub_ok (FP m - top_after top (bub_of E top rg o' keep)) m (bub_of E top rg o' keep)).
+  { clear O P. intros o' Nt O P.
+    destruct o' as [ch z|i|op x y|u x|g|tx|yj]; try destruct Nt; cbn [bub_of top_after bub_ok is_safe is_vac is_glob negb andb orb] in *; try exact I; try exact O;
+      rewrite ?HwE; destruct keep; cbn [top_after bub_ok andb orb] in *; try (destruct Hr; auto; fail); try (right; right; exact O);
+      apply pushed_slot_ok; try assumption; change (Z.of_nat 1) with 1 in P; lia. }
+  destruct o as [ch z|i|op x y|u x|g|tx|yj]; try (apply Main; [exact I | exact O | exact P]).
+  cbn [oexp_ok] in O. destruct O as [Ox Sh]. cbn [bub_of is_vac] in *. rewrite top_after_to_byte.
+  destruct tx as [ch z|i|op x y|u x|g|tx|yj]; try (exfalso; exact Sh); match type of Ox with oexp_ok _ _ ?t => pose proof (Main t I Ox P) as B end;
+    cbn [bub_of] in *; destruct keep; cbn [to_byte bub_ok top_after] in *; try exact B;
+    (split; [exact B|]); try exact Sh;
+    destruct L, Ro, Hr; subst rg; cbn [regaddr]; pose proof (W_even w Hw1); lia.
 Qed.
 Lemma bub_ok_agree hi hi' m m' b : regs_ok m -> agree hi' m m' -> bub_ok hi m b -> bub_ok hi m' b.
 Proof.
-  intros L A. destruct b as [z|[|] off|r|off]; cbn [bub_ok]; auto; try (apply (slot_ok_agree hi hi'); assumption).
-  intros [H|[H|H]]; auto. right; right. destruct r; auto. unfold gword_ok in *. rewrite (agree_inb hi' m m' _ _ A). exact H.
+  intros L A. destruct b as [ch z|[|] off|r|off|r|off]; cbn [bub_ok]; auto; try (apply (slot_ok_agree hi hi'); assumption).
+  - intros [H|[H|H]]; auto. right; right. destruct r; auto. unfold gword_ok in *. rewrite (agree_inb hi' m m' _ _ A). exact H.
+  - intros [[H|[H|H]] Hlt]; (split; [|exact Hlt]); auto. right; right. destruct r; auto. unfold gword_ok in *. rewrite (agree_inb hi' m m' _ _ A). exact H.
 Qed.
 Lemma bub_ok_mono hi hi' m b : hi' <= hi -> bub_ok hi m b -> bub_ok hi' m b.
 Proof.
-  intros L. destruct b as [z|[|] off|r|off]; cbn [bub_ok]; auto; try (apply slot_ok_mono; assumption).
-  intros [H|[H|H]]; auto. right; right. destruct r; auto. destruct H as [H1 [H2 H3]]. pose proof (dj_mono hi hi' _ _ L H3). unfold gword_ok. tauto.
+  intros L. destruct b as [ch z|[|] off|r|off|r|off]; cbn [bub_ok]; auto; try (apply slot_ok_mono; assumption).
+  - intros [H|[H|H]]; auto. right; right. destruct r; auto. destruct H as [H1 [H2 H3]]. pose proof (dj_mono hi hi' _ _ L H3). unfold gword_ok. tauto.
+  - intros [[H|[H|H]] Hlt]; (split; [|exact Hlt]); auto. right; right. destruct r; auto. destruct H as [H1 [H2 H3]]. pose proof (dj_mono hi hi' _ _ L H3). unfold gword_ok. tauto.
 Qed.
+Lemma slot_ok_byte hi m off : slot_ok hi m off w -> slot_ok hi m off 1.
+Proof.
+  intros [O1 [O2 [O3 O4]]]. unfold slot_ok. split; [exact O1|]. split; [exact O2|]. split.
+  - unfold inb in *. apply andb_true_iff in O3. destruct O3 as [X1 X2]. apply Z.leb_le in X1, X2. apply andb_true_iff. split; apply Z.leb_le; lia.
+  - unfold dj in *. lia.
+Qed.
+Lemma lb_lw m a : wf_mem m -> lb m a = lw m a mod 256.
+Proof.
+  intros Wf. unfold Machine.lb, Machine.lw, Machine.wn. destruct (Z.to_nat w) as [|k] eqn:Ek; [lia|].
+  cbn [loadn]. pose proof (Wf a). rewrite (Z.mul_comm 256), Z.mod_add by lia. symmetry. apply Z.mod_small. lia.
+Qed.
+Lemma bub_val_to_byte m b : wf_mem m -> match b with BuReg _ | BuPushed _ => True | _ => False end ->
+  bub_val m (to_byte b) = bub_val m b mod 256.
+Proof. intros Wf Sh. destruct b; try destruct Sh; cbn [to_byte bub_val]; apply lb_lw; exact Wf. Qed.
 Lemma bub_val_agree hi m m' b : regs_ok m -> agree hi m m' -> resident b = true -> bub_ok hi m b ->
   bub_val m' b = bub_val m b.
 Proof.
-  intros L A Rs. destruct b as [z|[|] off|r|off]; cbn [resident bub_ok bub_val] in *; try discriminate; try reflexivity;
-    intros [H1 [H2 [H3 H4]]]; rewrite (FP_agree hi m m' L A); first [apply (agree_lw hi); assumption | apply (agree_lb hi); assumption].
+  intros L A Rs. destruct b as [ch z|[|] off|r|off|r|off]; cbn [resident bub_ok bub_val] in *; try discriminate; try reflexivity;
+    intros H; first [ (destruct H as [H1 [H2 [H3 H4]]]; rewrite (FP_agree hi m m' L A); first [apply (agree_lw hi); assumption | apply (agree_lb hi); assumption])
+                    | (apply slot_ok_byte in H; destruct H as [H1 [H2 [H3 H4]]]; rewrite (FP_agree hi m m' L A); apply (agree_lb hi); assumption) ].
 Qed.
 (* ================================================================================= *)
 (* D  the lowered code on the machine                                                 *)
@@ -990,9 +1045,12 @@ Proof.
 Qed.
 Lemma lw_pop_other r b m a : 0 <= ra r -> 0 <= a -> (a + w <= ra r \/ ra r + w <= a) ->
   lw (pop_mem r b m) a = lw m a.
-Proof. intros Hr Ha D. destruct b as [|[]| |]; cbn [pop_mem]; try reflexivity; apply (lw_sw_other w Hw1); assumption. Qed.
+Proof. intros Hr Ha D. destruct b as [|[]| | | |]; cbn [pop_mem]; try reflexivity; apply (lw_sw_other w Hw1); assumption. Qed.
+Lemma lb_pop_other r b m a : 0 <= ra r -> 0 <= a -> (a < ra r \/ ra r + w <= a) ->
+  lb (pop_mem r b m) a = lb m a.
+Proof. intros Hr Ha D. destruct b as [|[]| | | |]; cbn [pop_mem]; try reflexivity; apply (lb_sw_other w Hw1); assumption. Qed.
 Lemma inb_pop r b m a n : inb (pop_mem r b m) a n = inb m a n.
-Proof. destruct b as [|[]| |]; cbn [pop_mem]; try reflexivity; apply inb_sw. Qed.
+Proof. destruct b as [|[]| | | |]; cbn [pop_mem]; try reflexivity; apply inb_sw. Qed.
 
 Lemma pop_props r b hi m : r = R0 \/ r = R1 -> regs_ok m -> bub_ok hi m b ->
   let m' := pop_mem r b m in
@@ -1028,8 +1086,8 @@ Proof.
                     (oval_st w cmem m fp (lo_if m L)) (oval_imm w cmem m _)) as A.
       rewrite (frame_addr m _ L O1) in A. specialize (A O3 Ir1).
       replace (p + (1 + 0)) with (p + 1) by lia. apply (runs_next act _ _ None A). }
-  destruct b as [z|[|] off|r'|off]; cbn [bub_ok] in B; unfold m'; cbn [pop_mem sym_of pop_value snd bub_val].
-  - split; [apply agree_refl|]. split; [reflexivity|]. intros c s p F P. inversion F; subst. cbn [size].
+  destruct b as [ch z|[|] off|r'|off|r'|off]; cbn [bub_ok] in B; unfold m'; cbn [pop_mem sym_of pop_value snd bub_val].
+  - split; [apply agree_refl|]. split; [destruct ch; reflexivity|]. intros c s p F P. inversion F; subst. cbn [size].
     replace (p + 0) with p by lia. apply runs_refl.
   - destruct (MemB off B) as [A [S C]]. split; [exact A|]. split; [exact S|].
     intros c s p F P. inversion F; subst. cbn [size]. apply C. exact P.
@@ -1041,6 +1099,24 @@ Proof.
       now rewrite I'.
     + intros c s p F P. inversion F; subst. cbn [size]. replace (p + 0) with p by lia. apply runs_refl.
   - destruct (Mem off B) as [A [S C]]. split; [exact A|]. split; [exact S|].
+    intros c s p F P. inversion F; subst. cbn [size]. apply C. exact P.
+  - (* StateByte: lbs [r], r' *)
+    destruct B as [B Hlt].
+    assert (I' : 0 <= ra r' /\ inb m (ra r') w = true).
+    { destruct B as [->|[->|B]]; [split; [apply (lo_r0 m L) | apply (lo_i0 m L)] | split; [apply (lo_r1 m L) | apply (lo_i1 m L)]|].
+      destruct r'; try contradiction. cbn [regaddr]. destruct B as [B0 [B1 _]]. split; assumption. }
+    destruct I' as [I0 I1].
+    assert (I1b : inb m (ra r') 1 = true).
+    { unfold inb in *. apply andb_true_iff in I1. destruct I1 as [X1 X2]. apply Z.leb_le in X1, X2. apply andb_true_iff. split; apply Z.leb_le; lia. }
+    split; [|split].
+    + apply agree_sw; [exact Ir0|]. destruct (ra_cases r Hr) as [->| ->]; auto.
+    + cbn [symval]. rewrite inb_sw, Ir1. rewrite (lw_sw_same w Hw1) by exact Ir0. f_equal.
+      apply (wrap_small w). unfold inrange. pose proof (lb_range m (ra r') (lo_wf m L)). pose proof (W_ge w Hw1). lia.
+    + intros c s p F P. inversion F; subst. cbn [plc res_ins res_sym regaddr] in P. destruct P as [C _].
+      assert (Sa : wrap (ra r') = ra r') by (apply (wrap_small w); unfold inrange; lia).
+      pose proof (act_lbs p m (ra r) (Imm (ra r')) (ra r') C ltac:(rewrite oval_imm, Sa; reflexivity) I1b Ir1) as Al.
+      cbn [size]. replace (p + (1 + 0)) with (p + 1) by lia. apply (runs_next act _ _ None Al).
+  - destruct (MemB off (slot_ok_byte hi m off B)) as [A [S C]]. split; [exact A|]. split; [exact S|].
     intros c s p F P. inversion F; subst. cbn [size]. apply C. exact P.
 Qed.
 (* a symbol that is not the register written by a pop keeps its value *)
@@ -1058,8 +1134,12 @@ Qed.
 Lemma sym_of_bub_of rg top o keep : rg = R0 \/ rg = R1 ->
   match sym_of rg (bub_of E top rg o keep) with
   | SReg r' => r' = rg \/ exists g, r' = RGlob g /\ o = OGlob g /\ keep = false
-  | SLit _ => True | _ => False end.
-Proof. intros _. destruct o, keep; cbn; eauto. Qed.
+  | SLit _ | SChar _ => True | _ => False end.
+Proof.
+  intros _. destruct o as [ch z|i|op x y|u x|g|tx|yj]; try (destruct keep; cbn; eauto; fail).
+  - destruct ch; exact I.
+  - cbn [bub_of]. destruct (bub_of E top rg tx keep) as [[|] ?|[]| | | |]; cbn; auto.
+Qed.
 
 (* ---------- operands: eval_opd ---------- *)
 (* what holds of the lowering of one operand: frame condition, the value is where the bubble
@@ -1073,10 +1153,17 @@ Definition eval_spec (o : iopd) : Prop := forall top rg keep m,
   forall c bub p, eval_opd E top rg o keep = (c, bub) -> plc c p ->
     runs (mk p m) [] (mk (p + size c) m').
 
+Lemma resident_to_byte b : resident (to_byte b) = resident b.
+Proof. destruct b; reflexivity. Qed.
+Lemma bub_of_keep_resident top rg o : resident (bub_of E top rg o true) = true.
+Proof. induction o as [ch z|i|op x _ y _|u x _|g|tx IHt|yj]; try reflexivity. cbn [bub_of]. rewrite resident_to_byte. exact IHt. Qed.
 Lemma eval_mem_safe top rg o keep m : is_safe o = true -> is_glob o && keep = false -> eval_mem top rg o keep m = m.
 Proof. destruct o, keep; try discriminate; reflexivity. Qed.
 Lemma temps_pushed o keep : (pushed o keep <= temps o keep)%nat.
-Proof. unfold pushed. destruct o, keep; cbn [is_safe is_vac is_glob negb andb orb temps]; lia. Qed.
+Proof.
+  unfold pushed. induction o as [ch z|i|op x _ y _|u x _|g|tx IHt|yj]; try (destruct keep; cbn [is_safe is_vac is_glob negb andb orb temps]; lia).
+  cbn [is_vac temps]. exact IHt.
+Qed.
 
 Lemma pair_props x y : eval_spec x -> eval_spec y -> forall top m,
   regs_ok m -> room_ok top m -> oexp_ok (FP m - top) m x -> oexp_ok (FP m - top) m y ->
@@ -1128,7 +1215,8 @@ Proof.
     - apply (bub_val_agree (FP m1 - top1)); assumption.
     - (* the left value is in r0: the right operand is safe and its evaluation emits nothing *)
       assert (Sfy : is_safe y = true).
-      { unfold bx, kx in Rb. destruct x; cbn [bub_of resident] in Rb; try discriminate; destruct (is_safe y); first [reflexivity | discriminate]. }
+      { destruct (Bool.bool_dec (is_safe y) true) as [e|n]; [exact e|]. apply Bool.not_true_is_false in n.
+        unfold bx, kx in Rb. rewrite n in Rb. cbn [negb] in Rb. rewrite bub_of_keep_resident in Rb. discriminate. }
       unfold m2. now rewrite (eval_mem_safe _ _ y _ _ Sfy (andb_false_r _)). }
   assert (By2 : bub_ok (FP m2 - top1) m2 by_).
   { pose proof (bub_of_ok top1 R1 y false m2 (or_intror eq_refl) L2 (room_ok_agree _ top1 m1 m2 L1 A2 Ro1')) as B.
@@ -1146,12 +1234,20 @@ Proof.
   assert (Vx3 : bub_val m3 bx = wval m x).
   { rewrite <- Vx2. destruct (resident bx) eqn:Rb.
     - apply (bub_val_agree lo); [exact L2 | exact A3 | exact Rb |]. apply (bub_ok_mono (FP m1 - top1)); assumption.
-    - assert (Eb : bx = BuReg R0 \/ exists g, bx = BuReg (RGlob g)).
-      { unfold bx in *. destruct x; cbn [bub_of resident] in Rb |- *; try discriminate; destruct kx; first [discriminate | left; reflexivity | right; eexists; reflexivity]. }
-      destruct Eb as [Eb | [g Eb]]; rewrite Eb in *; cbn [bub_val regaddr]; unfold m3.
+    - assert (Eb : (bx = BuReg R0 \/ exists g, bx = BuReg (RGlob g)) \/ (bx = BuRegB R0 \/ exists g, bx = BuRegB (RGlob g))).
+      { unfold bx in *. destruct x as [ch z|i|op' x1 x2|u' x1|g|tx|yj]; cbn [bub_of resident] in Rb |- *; try discriminate.
+        - left. destruct kx; first [discriminate | left; reflexivity | right; eexists; reflexivity].
+        - left. destruct kx; first [discriminate | left; reflexivity | right; eexists; reflexivity].
+        - left. destruct kx; first [discriminate | left; reflexivity | right; eexists; reflexivity].
+        - right. cbn [oexp_ok] in Ox. destruct Ox as [_ Sh]. destruct tx; try (exfalso; exact Sh); cbn [bub_of to_byte resident] in Rb |- *;
+            destruct kx; first [discriminate | left; reflexivity | right; eexists; reflexivity]. }
+      destruct Eb as [[Eb | [g Eb]] | [Eb | [g Eb]]]; rewrite Eb in *; cbn [bub_val regaddr]; unfold m3.
       + apply lw_pop_other; cbn [regaddr]; destruct L2; try assumption; lia.
       + cbn [bub_ok] in Bx2. destruct Bx2 as [Q|[Q|[G0 [G1 [G2 [G3 G4]]]]]]; try discriminate Q.
-        apply lw_pop_other; cbn [regaddr]; [apply (lo_r1 m2 L2) | exact G0 | lia]. }
+        apply lw_pop_other; cbn [regaddr]; [apply (lo_r1 m2 L2) | exact G0 | lia].
+      + apply lb_pop_other; cbn [regaddr]; destruct L2; try assumption; lia.
+      + cbn [bub_ok] in Bx2. destruct Bx2 as [[Q|[Q|[G0 [G1 [G2 [G3 G4]]]]]] _]; try discriminate Q.
+        apply lb_pop_other; cbn [regaddr]; [apply (lo_r1 m2 L2) | exact G0 | lia]. }
   (* pop left into r0 *)
   destruct (pop_props R0 bx _ m3 (or_introl eq_refl) L3 Bx3) as [A4 [S4 C4]].
   assert (Em : m' = pop_mem R0 bx m3) by reflexivity.
@@ -1233,7 +1329,7 @@ Ltac close_with G :=
 
 Theorem eval_opd_props o : eval_spec o.
 Proof.
-  induction o as [z|i|op x IHx y IHy|u x IHx|g|yj]; intros top rg keep m Hr L Ro O T m'.
+  induction o as [ch z|i|op x IHx y IHy|u x IHx|g|tx IHt|yj]; intros top rg keep m Hr L Ro O T m'.
   - (* literal *)
     split; [apply agree_refl|]. split; [reflexivity|]. intros c bub p Ev _. cbn [eval_opd] in Ev. inversion Ev; subst.
     cbn [size]. replace (p + 0) with p by lia. apply runs_refl.
@@ -1306,7 +1402,7 @@ Proof.
     assert (Ir : 0 <= ra rg /\ inb m2 (ra rg) w = true) by (destruct L2, Hr; subst rg; cbn [regaddr]; split; assumption).
     destruct Ir as [Ir0 Ir1].
     set (o := OUn u x).
-    set (m3 := match u, x with UPos, OLit z => sw m2 (ra rg) (wrap z) | UPos, OGlob g => sw m2 (ra rg) (lw m2 (a_glob R g)) | UPos, _ => m2 | UNeg, _ => sw m2 (ra rg) (wval m (OUn UNeg x)) end).
+    set (m3 := match u, x with UPos, OLit _ z => sw m2 (ra rg) (wrap z) | UPos, OGlob g => sw m2 (ra rg) (lw m2 (a_glob R g)) | UPos, _ => m2 | UNeg, _ => sw m2 (ra rg) (wval m (OUn UNeg x)) end).
     change m' with (push_mem keep top rg m3).
     set (ucode := match u with UNeg => [AInstr (AArith Asub rg (SLit 0) (sym_of rg b))]
                            | UPos => if is_state_of rg (sym_of rg b) then [] else [AInstr (AMov rg (sym_of rg b))] end).
@@ -1333,14 +1429,14 @@ Proof.
       - (* pos *)
         assert (Vp : wval m o = wval m x).
         { unfold o. cbn [wval]. rewrite <- (sgn_wval _ m x (lo_wf m L) O). apply (wrap_sgn w Hw1). exact Rx. }
-        destruct x as [z|i|op' x1 x2|u' x1|g|yj'].
+        destruct x as [ch z|i|op' x1 x2|u' x1|g|tx'|yj'].
         + (* a literal: `mov [rg], z` *)
-          unfold m3, ucode, b. cbn [bub_of sym_of pop_value snd is_state_of].
-          split; [apply Asw|]. split.
-          * rewrite (lw_sw_same w Hw1) by exact Ir0. rewrite Vp. cbn [wval]. apply (wrap_wrap w Hw1).
-          * intros q Pq. cbn [plc res_ins res_sym] in Pq. destruct Pq as [Cq _].
-            pose proof (act_mov w code cmem q m2 (ra rg) (Imm z) (wrap z) Cq (oval_imm w cmem m2 z) Ir1) as Am.
-            cbn [size]. replace (q + (1 + 0)) with (q + 1) by lia. apply (runs_next act _ _ None Am).
+          unfold m3, ucode, b. cbn [bub_of sym_of pop_value snd]. destruct ch; cbn [lit_sym is_state_of].
+          all: (split; [apply Asw|]); (split;
+            [ rewrite (lw_sw_same w Hw1) by exact Ir0; rewrite Vp; cbn [wval]; apply (wrap_wrap w Hw1)
+            | intros q Pq; cbn [plc res_ins res_sym] in Pq; destruct Pq as [Cq _];
+              pose proof (act_mov w code cmem q m2 (ra rg) (Imm z) (wrap z) Cq (oval_imm w cmem m2 z) Ir1) as Am;
+              cbn [size]; replace (q + (1 + 0)) with (q + 1) by lia; apply (runs_next act _ _ None Am) ]).
         + unfold m3, ucode, b in *. cbn [bub_of sym_of pop_value snd is_state_of] in *. rewrite reg_eqb_refl.
           split; [exact A12|]. split.
           * rewrite Vp. cbn [symval] in S2. rewrite Ir1 in S2. injection S2 as S2'. exact S2'.
@@ -1363,6 +1459,13 @@ Proof.
           * intros q Pq. cbn [plc res_ins res_sym regaddr] in Pq. destruct Pq as [Cq _].
             pose proof (act_mov w code cmem q m2 (ra rg) (St (a_glob R g)) _ Cq (oval_st w cmem m2 _ Ig) Ir1) as Am.
             cbn [size]. replace (q + (1 + 0)) with (q + 1) by lia. apply (runs_next act _ _ None Am).
+        + (* a byte access: loaded into [rg] by the pop, no instruction *)
+          pose proof O as O'. cbn [oexp_ok] in O'. destruct O' as [_ Sh].
+          destruct tx' as [ch z|i|op' y1 y2|u' y1|g|tx''|yj'']; try (exfalso; exact Sh);
+            unfold m3, ucode, b in *; cbn [bub_of to_byte sym_of pop_value snd is_state_of] in *; rewrite reg_eqb_refl;
+            (split; [exact A12|]);
+            (split; [rewrite Vp; cbn [symval] in S2; rewrite Ir1 in S2; injection S2 as S2'; exact S2'
+                    | intros q _; cbn [size]; replace (q + 0) with q by lia; apply runs_refl]).
         + unfold m3, ucode, b in *. cbn [bub_of sym_of pop_value snd is_state_of] in *. rewrite reg_eqb_refl.
           split; [exact A12|]. split.
           * rewrite Vp. cbn [symval] in S2. rewrite Ir1 in S2. injection S2 as S2'. exact S2'.
@@ -1405,6 +1508,15 @@ Proof.
         cbn [size]. replace (p + (1 + 0)) with (p + 1) by lia. apply (runs_next act _ _ None A).
     + split; [apply agree_refl|]. split; [reflexivity|]. intros c bub p Ev _. inversion Ev; subst.
       cbn [size]. replace (p + 0) with p by lia. apply runs_refl.
+  - (* byte access of an operand: the same code, the value read through its low byte *)
+    cbn [oexp_ok] in O. destruct O as [Ox Sh]. cbn [temps] in T.
+    destruct (IHt top rg keep m Hr L Ro Ox T) as [A [V C]].
+    split; [exact A|]. split.
+    + cbn [bub_of wval]. rewrite <- V. apply bub_val_to_byte.
+      * apply (lo_wf _ (regs_ok_agree _ m _ L A)).
+      * destruct tx; try (exfalso; exact Sh); cbn [bub_of]; destruct keep; exact I.
+    + intros c bub p Ev P. cbn [eval_opd] in Ev. destruct (eval_opd E top rg tx keep) as [c0 b0] eqn:E0.
+      inversion Ev; subst. apply (C _ _ p eq_refl P).
   - (* a byte-sized local read as an int *)
     split; [apply agree_refl|]. split; [reflexivity|]. intros c bub p Ev _. cbn [eval_opd] in Ev. inversion Ev; subst.
     cbn [size]. replace (p + 0) with p by lia. apply runs_refl.
@@ -2389,7 +2501,7 @@ Proof.
   destruct b0 as [z|[| | | | | |?|?]|l|c|r'|x0]; try exact IH; destruct o as [z|r0|l|c|r'|x0]; try exact IH. cbn [app]. now rewrite IH.
 Qed.
 Lemma pop_value_stores r b : store_offs (fst (pop_value r b)) = [].
-Proof. destruct b as [|[]| |]; reflexivity. Qed.
+Proof. destruct b as [|[]| | | |]; reflexivity. Qed.
 Lemma zmul_mono (a b : nat) (ws : Z) : 0 <= ws -> (a <= b)%nat -> Z.of_nat a * ws <= Z.of_nat b * ws.
 Proof. intros H L. apply Z.mul_le_mono_nonneg_r; lia. Qed.
 
@@ -2411,7 +2523,7 @@ Proof.
         pose proof (zmul_mono 1 M ws ltac:(lia) HM). unfold T. lia.
       + intros [I|[_ ->]]; apply in_or_app; [left; exact I | right; left; unfold T; lia].
     - split; [exact F|]. intros [I|[X _]]; [exact I | discriminate]. }
-  induction o as [z|i|op x IHx y IHy|u x IHx|g|yj]; intros top r keep offs T.
+  induction o as [ch z|i|op x IHx y IHy|u x IHx|g|tx IHt|yj]; intros top r keep offs T.
   - split; [constructor | intros H; exfalso; apply H; reflexivity].
   - split; [constructor | intros H; exfalso; apply H; reflexivity].
   - unfold offs, T. cbn [eval_opd temps]. set (kx := negb (is_safe y)).
@@ -2425,7 +2537,10 @@ Proof.
     set (tx := temps x kx) in *. set (ty := temps y false) in *.
     set (k := if keep then 1%nat else 0%nat).
     set (M := Nat.max (Nat.max tx (d + ty)) k).
-    assert (Hd : (d <= tx)%nat) by (unfold d, tx, pushed; destruct x, kx; cbn [is_safe is_vac is_glob negb andb orb temps]; lia).
+    assert (Hd : (d <= tx)%nat).
+    { unfold d, tx, pushed. generalize kx. clear. intros k0.
+      induction x as [ch z|i|op x1 _ x2 _|u x1 _|g|tx0 IHt0|yj]; try (destruct k0; cbn [is_safe is_vac is_glob negb andb orb temps]; lia).
+      cbn [is_vac temps]. exact IHt0. }
     assert (E2 : Z.of_nat (d + ty) * ws = Z.of_nat d * ws + Z.of_nat ty * ws) by (rewrite Nat2Z.inj_add; ring).
     pose proof (zmul_mono tx M ws ltac:(lia) ltac:(unfold M; lia)) as L1.
     pose proof (zmul_mono (d + ty) M ws ltac:(lia) ltac:(unfold M; lia)) as L2.
@@ -2466,6 +2581,7 @@ Proof.
   - subst offs T. destruct keep; cbn [eval_opd fst store_offs temps]; fold ws.
     + change (Z.of_nat 1) with 1. split; [constructor; [lia | constructor] | intros _; left; lia].
     + split; [constructor | intros N; contradiction N; reflexivity].
+  - subst offs T. cbn [eval_opd temps]. specialize (IHt top r keep). destruct (eval_opd E top r tx keep) as [c0 b0]. exact IHt.
   - split; [constructor | intros H; exfalso; apply H; reflexivity].
 Qed.
 
@@ -2496,7 +2612,7 @@ Definition ex_lo : Z := 40.
 Definition ex_env : env := with_top (is_you_env 2 3) 10.
 (* a + 1 < b * c and not (p or c < -c) *)
 Definition ex_e : bexpr :=
-  BAnd (BCmp SLt (OArith SAdd (OVar 0) (OLit 1)) (OArith SMul (OVar 1) (OVar 2)))
+  BAnd (BCmp SLt (OArith SAdd (OVar 0) (OLit false 1)) (OArith SMul (OVar 1) (OVar 2)))
        (BNot (BOr (BVar (BLocal 0)) (BCmp SLt (OVar 2) (OUn UNeg (OVar 2))))).
 Definition ex_T : label := (LElse, 0%nat).
 Definition ex_F : label := (LEndElse, 0%nat).
@@ -2537,7 +2653,7 @@ Lemma ex_norm : bool_norm 2 ex_regs ex_env ex_mem ex_e.
 Proof. cbn [bool_norm ex_e]. repeat split. left. vm_compute. reflexivity. Qed.
 
 (* an arithmetic operand with a kept temporary: (a + 1) * (b - c) into r0 *)
-Definition ex_o : iopd := OArith SMul (OArith SAdd (OVar 0) (OLit 1)) (OArith SSub (OVar 1) (OVar 2)).
+Definition ex_o : iopd := OArith SMul (OArith SAdd (OVar 0) (OLit false 1)) (OArith SSub (OVar 1) (OVar 2)).
 Definition ex_oprog : list instr := resolve ex_regs ex_ext 0 (fst (eval_opd ex_env 10 R0 ex_o false)).
 Example arith_lowering_ex :
   let m' := eval_mem 2 ex_regs ex_env 10 R0 ex_o false ex_mem in
